@@ -79,6 +79,29 @@ def run_episode(spec, uid="E"):
             reals[it["a2"]] = build_real(worlds[it["a2"]], render)
             events.append({"k": "addimport", "a": f"{uid}.A{it['a']}", "a2": f"{uid}.A{it['a2']}",
                            "e": [list(e[0]), list(e[1])], **observe(reals[it["a2"]], back)})
+        elif op == "query":
+            from harness.rulesapi import real_filter
+            ev = real(it["a"])
+            deps = [real_filter(f, render) for f in it["dependents"]]
+            upons = [real_filter(f, render) for f in it["upons"]]
+            conv = (lambda s_: s_.split(".")) if back is None else back
+
+            def fj(m):  # Module / ModuleGroup -> abstract filter key
+                return {"kind": "named" if m.is_single_module else "sub", "name": conv(m.identifier)}
+
+            if it["q"] == "deps":
+                res = ev.get_dependencies(deps, upons)
+                result = [{"key": [fj(k[0]), fj(k[1])], "deps": [[conv(d[0].identifier), conv(d[1].identifier)] for d in v]}
+                          for k, v in res.items()]
+            else:
+                fn = (ev.any_dependencies_from_dependents_to_modules_other_than_dependent_upons if it["q"] == "other_from"
+                      else ev.any_other_dependencies_on_dependent_upons_than_from_dependents)
+                res = fn(deps, upons)
+                result = [{"key": [fj(k)], "deps": [[conv(d[0].identifier), conv(d[1].identifier)] for d in v]}
+                          for k, v in res.items()]
+            strip = lambda fs: [{k: f[k] for k in ("kind", "name", "matches")} for f in fs]
+            events.append({"k": "query", "a": f"{uid}.A{it['a']}", "q": it["q"], "dependents": strip(it["dependents"]),
+                           "upons": strip(it["upons"]), "result": result})
         elif op == "law":
             events.append({"k": "law", "law": it["law"], "as": [f"{uid}.A{a}" for a in it["as"]], "rids": it["rids"]})
         else:
